@@ -207,8 +207,8 @@ pub fn build(forest: &[Sk], emptiness: u8, forms: u8) -> Program {
 
 pub fn bounds(tier: Tier) -> Value {
     match tier {
-        Tier::Quick => json!({"blocks_full_spelling_product": 1, "blocks_rotated_spellings": 2, "three_block_nesting_chains": true, "depth": 3, "deviations": 2, "horizon": 8}),
-        Tier::Thorough => json!({"blocks_full_spelling_product": 1, "blocks_rotated_spellings": 3, "depth": 3, "deviations": 3, "horizon": 12, "four_blocks_subset": true}),
+        Tier::Quick => json!({"blocks_full_spelling_product": 1, "blocks_rotated_spellings": 2, "three_block_nesting_chains": true, "depth": 3, "deviations": 2, "horizon": 8, "long_run_iterations": [0, 1, 40, 70, 300]}),
+        Tier::Thorough => json!({"blocks_full_spelling_product": 1, "blocks_rotated_spellings": 3, "depth": 3, "deviations": 3, "horizon": 12, "four_blocks_subset": true, "long_run_iterations": [0, 1, 40, 70, 300, 1000, 5000]}),
     }
 }
 
@@ -311,9 +311,157 @@ fn report(w: &mut Worker, r: ExploreResult, cj: Value, nontrivial_prog: bool, cl
     }
 }
 
+
+// ---------------------------------------------------------------------------------------------
+// long-running loops: "the same block executed many times"
+// ---------------------------------------------------------------------------------------------
+
+/// a loop nest with fixed iteration counts; every loop counts its iterations in `k<id>`, adds to the
+/// global counter `n` and appends `<id>=<iterations>` to the trace variable `t` when it is left
+#[derive(Clone, Debug)]
+enum Lp {
+    W(u32, usize, Vec<Lp>),
+    F(u32, usize, Vec<Lp>),
+    /// an `if true` block around the nested loops
+    I(Vec<Lp>),
+}
+
+fn lp_render(l: &Lp, generic_end: bool, out: &mut Vec<String>) {
+    match l {
+        Lp::W(id, n, inner) => {
+            out.push(format!("k{} = set 0", id));
+            out.push(format!("while less_than ${{k{}}} {}", id, n));
+            out.push(format!("k{id} = calc ${{k{id}}} + 1", id = id));
+            out.push("n = calc ${n} + 1".to_string());
+            for i in inner {
+                lp_render(i, generic_end, out);
+            }
+            out.push(if generic_end { "end".into() } else { "end_while".into() });
+            out.push(format!("t = set \"${{t}} {id}=${{k{id}}}\"", id = id));
+        }
+        Lp::F(id, n, inner) => {
+            out.push(format!("k{} = set 0", id));
+            out.push(format!("r{} = range 0 {}", id, n));
+            out.push(format!("for x{id} in ${{r{id}}}", id = id));
+            out.push(format!("k{id} = calc ${{k{id}}} + 1", id = id));
+            out.push("n = calc ${n} + 1".to_string());
+            for i in inner {
+                lp_render(i, generic_end, out);
+            }
+            out.push(if generic_end { "end".into() } else { "end_for".into() });
+            out.push(format!("release ${{r{}}}", id));
+            out.push(format!("t = set \"${{t}} {id}=${{k{id}}}\"", id = id));
+        }
+        Lp::I(inner) => {
+            out.push("if true".into());
+            for i in inner {
+                lp_render(i, generic_end, out);
+            }
+            out.push(if generic_end { "end".into() } else { "end_if".into() });
+        }
+    }
+}
+
+/// the tree walker for loop nests
+fn lp_walk(l: &Lp, n: &mut u64, t: &mut String, k: &mut std::collections::BTreeMap<String, String>) {
+    match l {
+        Lp::W(id, cnt, inner) | Lp::F(id, cnt, inner) => {
+            for _ in 0..*cnt {
+                *n += 1;
+                for i in inner {
+                    lp_walk(i, n, t, k);
+                }
+            }
+            k.insert(format!("k{}", id), cnt.to_string());
+            t.push_str(&format!(" {}={}", id, cnt));
+        }
+        Lp::I(inner) => {
+            for i in inner {
+                lp_walk(i, n, t, k);
+            }
+        }
+    }
+}
+
+fn long_nests(tier: Tier) -> Vec<(String, Vec<Lp>)> {
+    let counts: Vec<usize> = tier.pick(vec![0, 1, 40, 70, 300], vec![0, 1, 40, 70, 300, 1000, 5000]);
+    let mut out = vec![];
+    let mk = |kind: u8, id: u32, n: usize, inner: Vec<Lp>| if kind == 0 { Lp::W(id, n, inner) } else { Lp::F(id, n, inner) };
+    for &n in &counts {
+        for a in 0..2u8 {
+            out.push((format!("single {} x{}", a, n), vec![mk(a, 1, n, vec![])]));
+            for b in 0..2u8 {
+                // outer loop due three iterations, inner loop running n times in each of them
+                out.push((format!("nest {}{} 3x{}", a, b, n), vec![mk(a, 1, 3, vec![mk(b, 2, n, vec![])])]));
+                // the long loop outside
+                out.push((format!("nest {}{} {}x2", a, b, n), vec![mk(a, 1, n, vec![mk(b, 2, 2, vec![])])]));
+                // two inner loops one after the other
+                out.push((format!("nest {}[{}{}] 3x{}", a, b, b, n), vec![mk(a, 1, 3, vec![mk(b, 2, n, vec![]), mk(1 - b, 3, n, vec![])])]));
+                // the inner loop inside a branch
+                out.push((format!("nest {}if{} 3x{}", a, b, n), vec![mk(a, 1, 3, vec![Lp::I(vec![mk(b, 2, n, vec![])])])]));
+                // three levels, the long loop in the middle
+                out.push((format!("nest {}{}{} 2x{}x2", a, b, a, n), vec![mk(a, 1, 2, vec![mk(b, 2, n, vec![mk(a, 3, 2, vec![])])])]));
+            }
+        }
+    }
+    out
+}
+
+fn long_script(nest: &[Lp], generic_end: bool) -> String {
+    let mut lines = vec!["n = set 0".to_string(), "t = set \"\"".to_string()];
+    for l in nest {
+        lp_render(l, generic_end, &mut lines);
+    }
+    lines.join("\n")
+}
+
+fn long_run_observed(text: &str) -> Result<std::collections::BTreeMap<String, String>, String> {
+    let ctx = crate::util::sdk_context();
+    let (env, _o, _e, _h) = crate::util::quiet_env();
+    match guarded(|| duckscript::runner::run_script(text, ctx, Some(env))) {
+        Err(p) => Err(format!("panic: {}", p)),
+        Ok(Err(e)) => Err(format!("the run failed: {}", e)),
+        Ok(Ok(c)) => Ok(c.variables.iter().filter(|(k, _)| k.as_str() == "n" || k.as_str() == "t" || (k.starts_with('k') && k[1..].chars().all(|c| c.is_ascii_digit()))).map(|(k, v)| (k.clone(), v.clone())).collect()),
+    }
+}
+
+fn long_runs(w: &mut Worker) {
+    for (name, nest) in long_nests(w.tier) {
+        for generic_end in [true, false] {
+            if !w.take() {
+                continue;
+            }
+            let text = long_script(&nest, generic_end);
+            let cj = json!({"kind": "long-run", "name": name, "script": text});
+            w.begin(|| cj.clone());
+            let mut n = 0u64;
+            let mut t = String::new();
+            let mut exp = std::collections::BTreeMap::new();
+            for l in &nest {
+                lp_walk(l, &mut n, &mut t, &mut exp);
+            }
+            exp.insert("n".into(), n.to_string());
+            exp.insert("t".into(), t);
+            w.add_transitions(1);
+            w.add_traces(1);
+            w.count("long_run_loop_iterations", n);
+            match long_run_observed(&text) {
+                Err(e) => w.fail("long-run:run-failed", &format!("{} ({}): {}", name, if generic_end { "end" } else { "specific end" }, e), cj),
+                Ok(got) if got != exp => w.fail(
+                    "long-run:final-variables-differ",
+                    &format!("{} ({}): implementation {:?}, tree walker {:?}", name, if generic_end { "end" } else { "specific end" }, got, exp),
+                    cj,
+                ),
+                Ok(_) => w.pass(n > 3, hash64(&("long", n.min(400), nest.len()))),
+            }
+        }
+    }
+}
+
 pub fn worker(w: &mut Worker) {
     let tier = w.tier;
     w.set_case_limit_ms(20_000);
+    long_runs(w);
     let rig = FlowRig::new();
     let (devs, horizon) = tier.pick((2usize, 8usize), (3usize, 12usize));
 
@@ -414,6 +562,12 @@ pub fn worker(w: &mut Worker) {
 
 pub fn replay(case: &Value) -> Result<String, String> {
     let text = case["script"].as_str().ok_or("no script")?;
+    if case["kind"].as_str() == Some("long-run") {
+        return Ok(match long_run_observed(text) {
+            Ok(v) => format!("variables: {:?}", v),
+            Err(e) => e,
+        });
+    }
     let decided: Vec<(Key, u16)> = case["answers"]
         .as_array()
         .map(|a| {
@@ -434,7 +588,7 @@ pub fn crash_sig(_case: &Value, kind: &str) -> String {
     kind.to_string()
 }
 
-pub const RULE: &str = "programs: every well-nested forest of blocks {if with 0-2 elseif and optional else, while, for-in} with 1..N blocks and depth <= 3, an emit before / inside / after every block, leaf bodies with and without an emit, condition forms {value ${c}, ${c} and ${d}, command `ans`, negated command `not ans`} uniform and rotating; single-block programs with the full product of every spelling of every keyword (alias, block-specific end, generic end, full command name), larger ones with rotated spellings so that every keyword occurrence meets each of its spellings; for every program every assignment of truth values to condition evaluations and of lengths {0,1,2} to for-in arrays with a bounded number of deviations from the default (false / empty) within a horizon of choice points. Every execution on the real runner is compared with a tree-walking interpreter of the same AST run on the same answers: emit trace with loop-variable values and final variables (loop variables after their loop and handle names masked). evaluations = rendered programs; transitions = executions; states = distinct (trace length, deviations) classes";
+pub const RULE: &str = "programs: every well-nested forest of blocks {if with 0-2 elseif and optional else, while, for-in} with 1..N blocks and depth <= 3, an emit before / inside / after every block, leaf bodies with and without an emit, condition forms {value ${c}, ${c} and ${d}, command `ans`, negated command `not ans`} uniform and rotating; single-block programs with the full product of every spelling of every keyword (alias, block-specific end, generic end, full command name), larger ones with rotated spellings so that every keyword occurrence meets each of its spellings; for every program every assignment of truth values to condition evaluations and of lengths {0,1,2} to for-in arrays with a bounded number of deviations from the default (false / empty) within a horizon of choice points. Plus long-running loop nests (while / for-in, single, nested two and three deep, two inner loops in sequence, an inner loop inside a branch; iteration counts {0,1,40,70,300} quick, up to 5000 thorough; generic and block-specific end) whose counters and exit trace are compared with the same nest walked in Rust. Every execution on the real runner is compared with a tree-walking interpreter of the same AST run on the same answers: emit trace with loop-variable values and final variables (loop variables after their loop and handle names masked). evaluations = rendered programs; transitions = executions; states = distinct (trace length, deviations) classes";
 pub const ASSUMPTIONS: &[&str] = &["ill-nested programs, arrays modified while iterated and jumps into blocks are outside the property", "value-form conditions of an if/elseif chain are computed in front of the block"];
 pub const EXHAUSTIVE: bool = true;
 pub const WALL_CAP_S: (u64, u64) = (55, 1500);
